@@ -134,6 +134,7 @@ type ChanV struct {
 	ID   int
 	Name string
 	Buf  []Value
+	Closed bool // close(ch) was executed (a second close panics)
 	Cap  int // buffer capacity (0 = unbuffered: a send is never ready, no receivers are modelled)
 }
 
